@@ -17,8 +17,8 @@ def split_output(text):
             cur[1].append(line)
     return out
 
-def run_impl(exe, cases, timeout=600):
-    rc, out, err = C.sh([exe], inp=render(cases), timeout=timeout)
+def run_impl(exe, cases, timeout=None):
+    rc, out, err = C.sh([exe], inp=render(cases), timeout=timeout or C.driver_timeout())
     return rc, split_output(out), err
 
 HINT_OPS = ("range", "items")
